@@ -620,20 +620,37 @@ func (ndb *nodeDB) DeleteVersionsFrom(fromVersion int64) error {
 	}
 	dumpFromVersion := fromVersion
 	if legacyLatestVersion >= fromVersion {
+		type legacyRoot struct {
+			version int64
+			key     []byte
+			root    []byte
+		}
+		var roots []legacyRoot
 		if err := ndb.traverseRange(legacyRootKeyFormat.Key(fromVersion), legacyRootKeyFormat.Key(legacyLatestVersion+1), func(k, v []byte) error {
 			var version int64
 			legacyRootKeyFormat.Scan(k, &version)
+			roots = append(roots, legacyRoot{version: version, key: ibytes.Cp(k), root: ibytes.Cp(v)})
+			return nil
+		}); err != nil {
+			return err
+		}
+		// The versions are processed from the newest to the oldest: deleteLegacyNodes removes the
+		// nodes created in the given version and only fetches older ones. In ascending order a
+		// node shared with a later version (or the root shared by a commit without writes) was
+		// fetched again after it had been deleted, which failed as soon as the batch had been
+		// flushed in between.
+		for i := len(roots) - 1; i >= 0; i-- {
 			// delete the legacy nodes (an empty tree has no root node)
-			if len(v) > 0 {
-				if err := ndb.deleteLegacyNodes(version, v); err != nil {
+			if len(roots[i].root) > 0 {
+				if err := ndb.deleteLegacyNodes(roots[i].version, roots[i].root); err != nil {
 					return err
 				}
 			}
 			// it will skip the orphans because orphans will be removed at once in `deleteLegacyVersions`
 			// delete the legacy root
-			return ndb.batch.Delete(k)
-		}); err != nil {
-			return err
+			if err := ndb.batch.Delete(roots[i].key); err != nil {
+				return err
+			}
 		}
 		// Update the legacy latest version forcibly
 		ndb.legacyLatestVersion = 0
